@@ -153,7 +153,7 @@ class DSession:
                 )
                 for i in range(len(self.kinds))
             ],
-            "obs": [obsproj.project_observer(o) for o in d.subscribers],
+            "obs": [obsproj.project_observer(o, d.subscribers) for o in d.subscribers],
             "instok": model.instance_fingerprint(self.instance) == self.fp0,
         }
         return p
@@ -257,6 +257,47 @@ class DSession:
                   "res": self._oid_of(obj) if out == "ok" else 0,
                   "same_subs": before == list(d.subscribers)})
 
+    # -- built-in observers (C11 C12 C13 C17) --------------------------------
+    def create_builtin(self, t, fts=None, **kw):
+        """Construct a built-in observer of class name t on this dispatcher."""
+        from job_shop_lib.dispatching import feature_observers as FO
+        from job_shop_lib.dispatching import UnscheduledOperationsObserver, HistoryObserver as HO
+        from job_shop_lib import reinforcement_learning as RL
+        classes = {n: getattr(FO, n) for n in (
+            "IsReadyObserver", "EarliestStartTimeObserver", "DurationObserver", "IsScheduledObserver",
+            "PositionInJobObserver", "RemainingOperationsObserver", "IsCompletedObserver",
+            "CompositeFeatureObserver")}
+        classes.update({"UnscheduledOperationsObserver": UnscheduledOperationsObserver, "HistoryObserver": HO,
+                        "MakespanReward": RL.MakespanReward, "IdleTimeReward": RL.IdleTimeReward})
+        cls = classes[t]
+        d = self.dispatcher
+
+        def mk():
+            if fts:
+                return cls(d, feature_types=[FO.FeatureType(x) for x in fts], **kw)
+            return cls(d, **kw)
+
+        out, obj = _outcome(mk)
+        actual = sorted(fts or [])
+        if out == "ok":
+            self.extra.append(obj)
+            if hasattr(obj, "features"):
+                actual = sorted(getattr(k, "value", str(k)) for k in obj.features)
+        self._ev({"a": "CreateObs", "t": t, "fts": actual, "out": out})
+        return out
+
+    def fresh_run(self, creations, actions):
+        """Same observers created in the same order on a FRESH dispatcher, the
+        same calls made: its projection is logged next to the current one."""
+        other = DSession(self.tid, self.inst, self.filt, ())
+        for (t, fts) in creations:
+            other.create_builtin(t, fts)
+        for a in actions:
+            if a["a"] == "D":
+                other.dispatch(a["j"], a["p"], a["m"], none=bool(a.get("none", False)))
+        p = other.post()
+        self._ev({"a": "FreshRun", "core": p["core"], "obs": p["obs"]})
+
     # -- dispatching rules (C04) -------------------------------------------
     def rule_step(self, rule, chooser):
         """One DispatchingRuleSolver.step on this dispatcher.  A recording
@@ -335,7 +376,7 @@ class DSession:
     # -- trace -------------------------------------------------------------
     def trace(self):
         t = {"tid": self.tid, "inst": self.inst, "filt": self.filt,
-             "kinds": self.kinds, "events": self.events}
+             "kinds": self.kinds, "events": self.events, "featcheck": False, "fresh_obs": []}
         t.update(self.header)
         return t
 
@@ -395,6 +436,19 @@ def rerun_trace(tid, trace) -> dict:
             s.create_or_get(ev["cls"])
         elif a == "Replay":
             s.replay(ev["mode"])
+        elif a == "CreateObs":
+            s.create_builtin(ev["t"], ev["fts"])
+        elif a == "FreshRun":
+            creations = [(e["t"], e["fts"]) for e in trace["events"] if e["a"] == "CreateObs"]
+            acts, cur = [], []
+            for e in trace["events"]:
+                if e is ev:
+                    break
+                if e["a"] == "Reset":
+                    cur = []
+                elif e["a"] == "Dispatch" and e["out"] == "ok":
+                    cur.append({"a": "D", "j": e["j"], "p": e["p"], "m": e["m"], "none": e.get("none", False)})
+            s.fresh_run(creations, cur)
         elif a == "RuleStep":
             s.rule_step(ev["rule"], ev["chooser"])
         elif a == "RulePicks":
